@@ -72,6 +72,7 @@ type Val struct {
 	U     uint64 `json:"u,omitempty"`
 	F     uint64 `json:"f,omitempty"` // float64 bits
 	T     int64  `json:"tm,omitempty"` // unix milliseconds, UTC
+	Sub   int32  `json:"sub,omitempty"` // nanoseconds below the millisecond of the time.Time handed to the library (the wire format has milliseconds: they are cut off, not rounded)
 	B     bool   `json:"b,omitempty"`
 	Decoy bool   `json:"decoy,omitempty"`
 }
@@ -101,6 +102,9 @@ type Case struct {
 
 func (v *Val) Float() float64 { return math.Float64frombits(v.F) }
 func (v *Val) Time() time.Time { return time.UnixMilli(v.T).UTC() }
+
+// TimeGiven is the time.Time the application hands to a constructor or setter.
+func (v *Val) TimeGiven() time.Time { return v.Time().Add(time.Duration(v.Sub)) }
 
 // Text is the canonical wire text of a value ("" for Float: use FloatTextOK).
 func Text(t VT, v *Val) string {
